@@ -169,6 +169,8 @@ pub fn run_c17(tier: Tier, seed: u64, workers: usize) -> RunResult {
             let align = 1usize << ak;
             // only layouts of real types: size is a multiple of the alignment
             let size = size / align * align;
+            // the layout hook may hit an unsafe-precondition abort on a broken tree: publish the input
+            hbv::crash::set_current(0, &arith_case(2, 0, &[("size", size as u64), ("align", align as u64), ("k", 64)]).to_text(&[]));
             for k in 0..64u32 {
                 acc.evals.fetch_add(2, Ordering::Relaxed);
                 let interesting = size == 0 || k >= 56 || (size as u128) << k >= 1u128 << 62;
@@ -184,6 +186,7 @@ pub fn run_c17(tier: Tier, seed: u64, workers: usize) -> RunResult {
             }
         }
     }
+    hbv::crash::clear_current(0);
     acc.sample(format!("calculate_layout_for(size, max(align, WIDTH), 2^k) for {} sizes (0..=64, 72 .. 2^62, isize::MAX/2 +- 1, random) rounded down to multiples of align in 1..=4096, k in 0..64", lsizes.len()));
     // (d) probe sequences
     let kmax: u32 = if tier == Tier::Quick { 20 } else { 26 };
